@@ -88,7 +88,7 @@ def make_run(pre_factories, label, info, fn, backend):
             if p.value[0] == "rejected":
                 vc.queries += 1
                 continue
-            _, new, state, aux, tables = p.value
+            _, new, state, aux, tables, _probe = p.value
             for lab, cond in names_rule(pres, new, info) + c11.cache_invariant(new._cache):
                 vc.require(p.pc, cond, lab, wit)
             if backend == "polars":
